@@ -124,7 +124,7 @@ pub struct KindRun {
 
 fn mk_reader(bytes: &Rc<Vec<u8>>, env: &Env) -> (SimReader, Rc<std::cell::RefCell<ReaderLog>>) {
     match &env.trace {
-        Some(t) => SimReader::replay(bytes.clone(), t.clone(), env.policy.sticky_at),
+        Some(t) => SimReader::replay(bytes.clone(), t.clone(), env.policy.sticky_at, env.policy.prefix),
         None => SimReader::new(bytes.clone(), env.policy.clone(), Rng::new(env.reader_seed)),
     }
 }
@@ -552,6 +552,9 @@ fn record_source_stats(acc: &mut Acc, kind: Kind, st: &RunStats, legal: bool) {
         if r.backward_seeks > 0 {
             acc.inc("runs.reader.with_underlying_backward_seek");
         }
+        if r.started_at > 0 {
+            acc.inc("runs.reader.pre_advanced(input does not start at device offset 0)");
+        }
         if r.max_pos > 8192 {
             acc.inc("runs.reader.crossed_8KiB_buffer");
         }
@@ -674,7 +677,7 @@ impl SrcSim {
                     let mut monitor = None;
                     if let Some(r) = &run.stats.reader {
                         if r.negative_seek {
-                            monitor = Some("reader saw a seek to a negative offset");
+                            monitor = Some("reader saw a seek to before the start of the input");
                         }
                     }
                     if let Some(i) = &run.stats.iter {
@@ -933,7 +936,7 @@ pub fn replay(rp: &Replay) -> Option<(String, Outcome, Outcome)> {
     let mut monitor = None;
     if let Some(rd) = &run.stats.reader {
         if rd.negative_seek {
-            monitor = Some("reader saw a seek to a negative offset");
+            monitor = Some("reader saw a seek to before the start of the input");
         }
     }
     let (cmp, exp, obs) = compare(rp.kind, &r.outcome, &run.outcome, &rp.syms, &rp.env);
